@@ -249,7 +249,12 @@ class OdeModel:
             s.value = simp(f.value)
             return s
         if kind is None:
-            s.problems.append(("viol", "unexpected-writer", f"store into {f.target} outside the reaction/thermal/modifier loops"))
+            # a loop that does walk the reactions / thermal processes, but in a form that is not understood, is "cannot analyse"
+            lists = (self.REAC_FIELD, self.REAC, self.HEAT, self.COOL)
+            if outer is not None and any(x in lists for lp_ in f.loops for x in walk(simp(lp_.iter))):
+                s.problems.append(("unrec", "loop-shape", f"store into {f.target} inside a loop over {show(simp(outer.iter))[:80]}: loop form not understood"))
+            else:
+                s.problems.append(("viol", "unexpected-writer", f"store into {f.target} outside the reaction/thermal/modifier loops"))
             return s
         if f.op != "Add":
             s.problems.append(("viol", "op", f"accumulation uses {f.op}, not +="))
